@@ -90,9 +90,12 @@ Apply(st, op) ==
                     ELSE (IF ok THEN "ok" ELSE "timeout")
             \* duration bounds (virtual ms): immediate unless it has to wait / retry
             retry == ok /\ op.fault \in {"open", "lock"}
+            \* sequential histories: the in-process stage waits only if it is going to fail (then it takes its
+            \* whole time-out); otherwise only the OS stage waits: its time-out plus one poll interval
             dmax == IF mode = "nb" THEN 0
                     ELSE IF ok THEN (IF retry THEN st.cfg.poll ELSE 0)
-                    ELSE 2 * tmo + st.cfg.poll
+                    ELSE IF ~Stage1Ok(st, op) THEN tmo
+                    ELSE tmo + st.cfg.poll
             dmin == IF ok \/ mode = "nb" THEN 0 ELSE tmo
         IN [st |-> st2, res |-> res, dmin |-> dmin, dmax |-> dmax]
     ELSE IF op.op \in {"release", "release_force"} THEN
